@@ -1,9 +1,20 @@
 (* CoapSemanticRefine.v -- the byte-level semantic CoAP option parser and un-parser of
-   CoapSemanticBytes.v (written with the Buffer operations) refine the bit-level ones of
-   CoapSemantic.v through abs, and the C19 statements of CoapSemanticSpec.v lifted to bytes. *)
+   CoapSemanticBytes.v (written with the Buffer operations) refine the bit-level ones of CoapSemantic.v
+   through abs, and the C19 statements of CoapSemanticSpec.v lifted to bytes.
+   * bparse_coap_semantic_refines: on canonical left-padded buffers the byte-level semantic parser returns
+     the bit-level outcome (same exception / divergence, or fields denoting the bit-level ones, canonical
+     and left padded, and the same header length).
+   * bcoap_unparse_refines: on canonical field values the byte-level un-parser returns the outcome of
+     the bit-level un-parser, with no side condition (both levels have the finally clause of coap.py);
+     bcoap_unparse_ok, bcoap_unparse_ok_inv (successes); coap_unparse_loop_unknown,
+     bcoap_unparse_loop_unknown: what an unrecognised identifier answers (UnboundLocalError before any
+     option, then UnparserError below 65805 bytes of value and OverflowError from there on); the boundary
+     evaluated on both levels (cex_bytes, cex_bits, cex_bytes_short, cex_bits_short).
+   * bc19_semantic_parse, bc19_unparse, bc19_lossless, bc19_lossless_exists: C19 on packet bytes. *)
 From Coq Require Import ZArith List Bool Lia.
 From MS Require Import PyBase Buffer Bits ByteFacts BufferAbs BufNew BufferSpec Schc SchcBytes SchcRefine
-  Parsers ParserBytes ParserRefine CoapSemantic ComputeBytes ComputeRefine CoapSemanticBytes.
+  Parsers ParserBytes ParserRefine CoapSemantic ComputeBytes ComputeRefine CoapSemanticBytes
+  RfcHeaders ParserRfc CoapSemanticSpec.
 Import ListNotations.
 Open Scope Z_scope.
 
@@ -18,7 +29,7 @@ Definition dext_rel (x : option buf) (y : option bits) : Prop :=
 
 Lemma count_fid_abs f l : count_fid f (map (abs_field abs) l) = bcount_fid f l.
 Proof.
-  unfold count_fid, bcount_fid. f_equal.
+  unfold count_fid, bcount_fid, zlen. f_equal.
   induction l as [|x l IH]; [reflexivity|]. cbn [map filter abs_field f_id].
   destruct (fid_eqb (bf_id x) f); cbn [length]; now rewrite IH.
 Qed.
@@ -41,4 +52,408 @@ Proof.
   { destruct marker_ok as (m & Em & Cm & Sm & Am). rewrite Em. cbn [bind same_outcome]. rewrite <- Am. hdr_solve. }
   cbv zeta. step_from as ob. step_sl as delta. step_sl as olen. step_val.
   rewrite !eq_byte_refines by assumption.
-Admitted.
+  change (8 + 8) with 16. change (8 + 16) with 24.
+  assert (Hcnt : forall id, bcount_fid id acc + 1 = count_fid id acc' + 1).
+  { intros id. destruct Hacc as [<- _]. now rewrite count_fid_abs. }
+  destruct dext as [dx0|], dext' as [dv0|]; cbn [dext_rel] in Hd; try contradiction;
+    [destruct Hd as [Cdx0 <-]|];
+  (destruct (eq_byte (abs delta) 13) eqn:D8; [|destruct (eq_byte (abs delta) 14) eqn:D16]);
+  (try step_sl as dx); cbn [bind];
+  (destruct (eq_byte (abs olen) 13) eqn:L8; [|destruct (eq_byte (abs olen) 14) eqn:L16]);
+  (try (step_sl as lx; step_val)); cbn [bind]; note_ranges; step_sl as value;
+  (match goal with |- context [blen b <? ?c] => destruct (blen b <? c) eqn:Hover end; [reflexivity|]);
+  step_val;
+  (destruct (Z_of_bits (abs delta) <? 13); cbn [bind]; (try step_val); (try reflexivity));
+  (apply IH; [assumption|assumption|lia|cbn [dext_rel]; auto|]);
+  (apply fields_rel_app; [assumption|apply fields_rel_sem; [assumption|assumption|reflexivity|apply Hcnt]]).
+Qed.
+
+
+Lemma bcoap_parse_options_semantic_refines b : canon b -> bside b = LEFT ->
+  same_outcome hdr_rel (bcoap_parse_options_semantic b) (coap_semantic_loop (S (length (abs b))) (abs b) 0 0 None []).
+Proof.
+  intros Hb Hs. unfold bcoap_parse_options_semantic. rewrite length_abs by assumption.
+  apply bcoap_semantic_loop_refines; [assumption|assumption|lia|exact I|apply fields_rel_nil].
+Qed.
+
+Theorem bparse_coap_semantic_refines : refines bparse_coap_semantic parse_coap_semantic.
+Proof.
+  intros b Hb Hs. unfold bparse_coap_semantic, parse_coap_semantic. rewrite zlen_abs by assumption.
+  destruct (Z.ltb_spec (blen b) 32) as [|Hlen]; [reflexivity|]. cbv zeta.
+  step_sl as version. step_sl as type. step_sl as tkl.
+  assert (blen tkl = 4) as Htkl.
+  { rewrite <- (zlen_abs tkl) by assumption. rewrite Atkl. rewrite zlen_sl_exact; rewrite ?zlen_abs by assumption; lia. }
+  rewrite (content0_refines tkl) by (try assumption; lia). cbn [bind].
+  step_sl as code. step_sl as mid. note_ranges. step_sl as token. cbn [catch_all bind]. step_from as ob.
+  rewrite !zlen_abs by assumption.
+  apply same_outcome_bind with (R := hdr_rel).
+  - destruct (0 <? blen ob).
+    + apply same_outcome_catch. apply bcoap_parse_options_semantic_refines; assumption.
+    + cbn [same_outcome]. hdr_solve.
+  - intros o o' (Of & Ol & Oc). cbn [same_outcome]. apply hdr_rel_intro; [|congruence].
+    apply fields_rel_app; [|split; assumption].
+    destruct (0 <? _); fr_solve.
+Qed.
+
+(* ---- un-parsing ------------------------------------------------------------------------------------ *)
+(* results related field-wise: same identifiers, canonical buffers denoting the bit-level values *)
+Definition unp_rel (r : list (fid * buf)) (r' : list (fid * bits)) : Prop := canonf r /\ absf r = r'.
+
+Lemma unp_rel_nil : unp_rel [] [].
+Proof. split; [constructor|reflexivity]. Qed.
+Lemma unp_rel_one i x v : bval_rel x v -> unp_rel [(i, x)] [(i, v)].
+Proof. intros [C <-]. split; [constructor; [exact C|constructor]|reflexivity]. Qed.
+Lemma unp_rel_app a a' c c' : unp_rel a a' -> unp_rel c c' -> unp_rel (a ++ c) (a' ++ c').
+Proof. intros [C1 <-] [C2 <-]. split; [apply Forall_app; auto|unfold absf; now rewrite map_app]. Qed.
+Lemma unp_rel_cons i x v a a' : bval_rel x v -> unp_rel a a' -> unp_rel ((i, x) :: a) ((i, v) :: a').
+Proof. intros H1 H2. apply (unp_rel_app [_] [_]); [apply unp_rel_one; exact H1|exact H2]. Qed.
+
+(* Buffer(content=n.to_bytes(k), length=w) *)
+Lemma buint_field_refines k kz w wn n : kz = Z.of_nat k -> wn = Z.to_nat w -> 0 <= w ->
+  same_outcome bval_rel (buint_field k w n) (uint_field kz wn n).
+Proof.
+  intros -> -> Hw. unfold buint_field, to_bytes, uint_field.
+  destruct ((0 <=? n) && (n <? 256 ^ Z.of_nat k)) eqn:E; [|reflexivity]. cbn [bind].
+  apply andb_true_iff in E. destruct E as [E1 E2]. apply Z.leb_le in E1. apply Z.ltb_lt in E2.
+  destruct (new_left_bits (bytes_of k n) w (bytes_ok_bytes_of k n) Hw) as (r & E & C & _ & _ & A).
+  rewrite E. cbn [same_outcome]. split; [exact C|]. rewrite A, val_bytes_of, Z.mod_small by lia. reflexivity.
+Qed.
+
+(* Buffer(content=(13).to_bytes(1), length=4) *)
+Lemma bnibble_const c : 0 <= c < 256 -> same_outcome bval_rel (buint_field 1 4 c) (Ok (bits_of 4 c)).
+Proof.
+  intros Hc. pose proof (buint_field_refines 1 1 4 4 c eq_refl eq_refl ltac:(lia)) as H.
+  unfold uint_field in H. change (256 ^ 1) with 256 in H.
+  destruct (Z.leb_spec 0 c); [|lia]. destruct (Z.ltb_spec c 256); [|lia]. exact H.
+Qed.
+
+Lemma bnibble_refines x : 
+  same_outcome bval_rel
+    (if x <? 13 then buint_field 1 4 x else if x <? 269 then buint_field 1 4 13 else buint_field 1 4 14)
+    (if x <? 13 then uint_field 1 4 x else if x <? 269 then Ok (bits_of 4 13) else Ok (bits_of 4 14)).
+Proof.
+  destruct (x <? 13); [apply buint_field_refines; [reflexivity|reflexivity|lia]|].
+  destruct (x <? 269); apply bnibble_const; lia.
+Qed.
+
+Lemma bextension_refines i x :
+  same_outcome unp_rel
+    (if (12 <? x) && (x <? 269) then do e <- buint_field 1 8 (x - 13) ;; Ok [(i, e)]
+     else if 268 <? x then do e <- buint_field 2 16 (x - 269) ;; Ok [(i, e)] else Ok [])
+    (if (12 <? x) && (x <? 269) then do e <- uint_field 1 8 (x - 13) ;; Ok [(i, e)]
+     else if 268 <? x then do e <- uint_field 2 16 (x - 269) ;; Ok [(i, e)] else Ok []).
+Proof.
+  destruct ((12 <? x) && (x <? 269)); [|destruct (268 <? x)].
+  - apply same_outcome_bind with (R := bval_rel); [apply buint_field_refines; [reflexivity|reflexivity|lia]|].
+    intros e e' He. apply unp_rel_one. exact He.
+  - apply same_outcome_bind with (R := bval_rel); [apply buint_field_refines; [reflexivity|reflexivity|lia]|].
+    intros e e' He. apply unp_rel_one. exact He.
+  - apply unp_rel_nil.
+Qed.
+
+Lemma bunparse_option_refines n p v : canon v ->
+  same_outcome unp_rel (bunparse_option n p v) (unparse_option n p (abs v)).
+Proof.
+  intros Hv. unfold bunparse_option, unparse_option. cbv zeta. rewrite zlen_abs by exact Hv.
+  apply same_outcome_bind with (R := bval_rel); [apply bnibble_refines|]. intros dn dn' Hdn.
+  apply same_outcome_bind with (R := bval_rel); [apply bnibble_refines|]. intros ln ln' Hln.
+  apply same_outcome_bind with (R := unp_rel); [apply bextension_refines|]. intros de de' Hde.
+  apply same_outcome_bind with (R := unp_rel); [apply bextension_refines|]. intros le le' Hle.
+  cbn [same_outcome app]. apply unp_rel_cons; [exact Hdn|]. apply unp_rel_cons; [exact Hln|].
+  apply unp_rel_app; [exact Hde|]. apply unp_rel_app; [exact Hle|].
+  destruct (0 <? blen v / 8); [apply unp_rel_one; split; [exact Hv|reflexivity]|apply unp_rel_nil].
+Qed.
+
+(* The finally clause of CoAPParser.unparse (the option fields are built once more, with the stale
+   option_number, while the UnparserError of an unrecognised identifier is pending) is part of both
+   levels: CoapSemantic.coap_unparse_loop and CoapSemanticBytes.bcoap_unparse_loop have the same shape,
+   and the refinement needs no side condition. *)
+Lemma canonf_cons p l : canonf (p :: l) -> canon (snd p) /\ canonf l.
+Proof. intros H. inversion H; subst. auto. Qed.
+
+Lemma bcoap_unparse_loop_refines bfs : forall prev seen, canonf bfs ->
+  same_outcome unp_rel (bcoap_unparse_loop bfs prev seen) (coap_unparse_loop (absf bfs) prev seen).
+Proof.
+  induction bfs as [|[f v] bfs IH]; intros prev seen Hc; [apply unp_rel_nil|].
+  apply canonf_cons in Hc. cbn [snd] in Hc. destruct Hc as [Hv Hc].
+  cbn [absf map fst snd bcoap_unparse_loop coap_unparse_loop]. fold (absf bfs).
+  destruct (is_fixed_coap f).
+  { apply same_outcome_bind with (R := unp_rel); [apply IH; exact Hc|].
+    intros r r' Hr. apply unp_rel_cons; [split; [exact Hv|reflexivity]|exact Hr]. }
+  destruct (number_of_fid f) as [n|].
+  - apply same_outcome_bind with (R := unp_rel); [apply bunparse_option_refines; exact Hv|].
+    intros o o' Ho. apply same_outcome_bind with (R := unp_rel); [apply IH; exact Hc|].
+    intros r r' Hr. apply unp_rel_app; assumption.
+  - destruct seen; [|reflexivity].
+    apply same_outcome_bind with (R := unp_rel); [apply bunparse_option_refines; exact Hv|].
+    intros o o' Ho. reflexivity.
+Qed.
+
+Theorem bcoap_unparse_refines bfs : canonf bfs ->
+  same_outcome unp_rel (bcoap_unparse bfs) (coap_unparse (absf bfs)).
+Proof. apply bcoap_unparse_loop_refines. Qed.
+
+(* whenever the bit-level un-parser succeeds, so does the byte-level one, with the fields it denotes *)
+Corollary bcoap_unparse_ok bfs r' : canonf bfs -> coap_unparse (absf bfs) = Ok r' ->
+  exists r, bcoap_unparse bfs = Ok r /\ canonf r /\ absf r = r'.
+Proof.
+  intros Hc E. pose proof (bcoap_unparse_refines bfs Hc) as H.
+  destruct (same_outcome_ok _ _ _ _ H E) as (r & Er & Cr & Ar). exists r. auto.
+Qed.
+
+Corollary bcoap_unparse_ok_inv bfs r : canonf bfs -> bcoap_unparse bfs = Ok r ->
+  coap_unparse (absf bfs) = Ok (absf r) /\ canonf r.
+Proof.
+  intros Hc E. pose proof (bcoap_unparse_refines bfs Hc) as H.
+  rewrite E in H. destruct (coap_unparse (absf bfs)) as [r'| |]; cbn [same_outcome] in H; try contradiction.
+  destruct H as [Cr <-]. auto.
+Qed.
+
+(* ---- what the finally clause answers ------------------------------------------------------------------ *)
+(* the clause with the stale option number: delta 0, only the length of the value matters *)
+Lemma unparse_option_stale p v :
+  (zlen v / 8 < 65805 /\ exists r, unparse_option p p v = Ok r) \/
+  (65805 <= zlen v / 8 /\ unparse_option p p v = Exc OverflowError).
+Proof.
+  unfold unparse_option. cbv zeta. rewrite Z.sub_diag. set (l := zlen v / 8).
+  assert (0 <= l) by (apply Z.div_pos; [apply zlen_nonneg|lia]).
+  change (0 <? 13) with true. change ((12 <? 0) && (0 <? 269)) with false. change (268 <? 0) with false.
+  cbv iota. unfold uint_field. change (256 ^ 1) with 256. change (256 ^ 2) with 65536.
+  change ((0 <=? 0) && (0 <? 256)) with true. cbv iota. cbn [bind].
+  destruct (Z.ltb_spec l 13).
+  { left. split; [lia|]. destruct (Z.leb_spec 0 l); [|lia]. destruct (Z.ltb_spec l 256); [|lia]. cbn [andb bind].
+    destruct (Z.ltb_spec 12 l); [lia|]. cbn [andb]. destruct (Z.ltb_spec 268 l); [lia|]. cbn [bind]. eexists. reflexivity. }
+  destruct (Z.ltb_spec l 269).
+  { left. split; [lia|]. cbn [bind]. destruct (Z.ltb_spec 12 l); [|lia]. cbn [andb].
+    destruct (Z.leb_spec 0 (l - 13)); [|lia]. destruct (Z.ltb_spec (l - 13) 256); [|lia]. cbn [andb bind].
+    eexists. reflexivity. }
+  cbn [bind]. destruct (Z.ltb_spec 12 l); [|lia]. cbn [andb]. destruct (Z.ltb_spec 268 l); [|lia].
+  destruct (Z.leb_spec 0 (l - 269)); [|lia]. cbn [andb].
+  destruct (Z.ltb_spec (l - 269) 65536).
+  - left. split; [lia|]. cbn [bind]. eexists. reflexivity.
+  - right. split; [lia|]. reflexivity.
+Qed.
+
+(* an unrecognised identifier met by the loop: UnboundLocalError before any option; after an option
+   UnparserError for a value shorter than 65805 bytes and OverflowError from 65805 bytes on *)
+Lemma coap_unparse_loop_unknown f v r prev seen : is_fixed_coap f = false -> number_of_fid f = None ->
+  coap_unparse_loop ((f, v) :: r) prev seen =
+  if seen then (if zlen v / 8 <? 65805 then Exc UnparserError else Exc OverflowError) else Exc UnboundLocalError.
+Proof.
+  intros H1 H2. cbn [coap_unparse_loop]. rewrite H1, H2. destruct seen; [|reflexivity].
+  destruct (unparse_option_stale prev v) as [(Hl & o & ->)|(Hl & ->)]; cbn [bind];
+    destruct (Z.ltb_spec (zlen v / 8) 65805); try lia; reflexivity.
+Qed.
+
+Lemma bcoap_unparse_loop_unknown f v r prev seen : canon v -> is_fixed_coap f = false -> number_of_fid f = None ->
+  bcoap_unparse_loop ((f, v) :: r) prev seen =
+  if seen then (if blen v / 8 <? 65805 then Exc UnparserError else Exc OverflowError) else Exc UnboundLocalError.
+Proof.
+  intros Hv H1 H2. cbn [bcoap_unparse_loop]. rewrite H1, H2. destruct seen; [|reflexivity].
+  pose proof (bunparse_option_refines prev prev v Hv) as H. rewrite <- (zlen_abs v Hv).
+  destruct (unparse_option_stale prev (abs v)) as [(Hl & o & E)|(Hl & E)]; rewrite E in H;
+    destruct (Z.ltb_spec (zlen (abs v) / 8) 65805); try lia.
+  - destruct (bunparse_option prev prev v); cbn [same_outcome] in H; try contradiction. reflexivity.
+  - destruct (bunparse_option prev prev v) as [?|e|]; cbn [same_outcome] in H; try contradiction. subst e. reflexivity.
+Qed.
+
+(* ---- the boundary example ------------------------------------------------------------------------------ *)
+(* CoAPParser(interpret_options=SEMANTIC).unparse([(CoAPFields.OPTION_URI_PATH, Buffer(content=b'\x01', length=8)),
+     ('bogus', Buffer(content=bytes(n), length=n*8))])
+   raises OverflowError for n = 65805 and UnparserError for n = 65804 (microschc at HEAD, Python 3.12);
+   so do both levels of the model. *)
+Definition cex_bfs_n (n : Z) : list (fid * buf) :=
+  [(mkfid P_CoAP 18, mkbuf [1] 8 LEFT 0); (mkfid P_Other 0, mkbuf (zeros n) (n * 8) LEFT 0)].
+Definition cex_bfs : list (fid * buf) := cex_bfs_n 65805.
+Definition cex_bfs_short : list (fid * buf) := cex_bfs_n 65804.
+
+Lemma cex_canonf n : 0 <= n -> canonf (cex_bfs_n n).
+Proof.
+  intros Hn. constructor; [|constructor; [|constructor]]; cbn [snd].
+  - split; [cbn; lia|]. split; [reflexivity|]. split; [reflexivity|]. split; [|cbn; lia].
+    apply bytes_ok_cons. split; [lia|apply bytes_ok_nil].
+  - split; [cbn [blen]; lia|]. cbn [bside content blen bpl].
+    split; [unfold calc_pl; rewrite Z.mod_mul by lia; reflexivity|].
+    split; [rewrite zlen_zeros, Z.add_comm, Z.div_add by lia; change (7 / 8) with 0; lia|].
+    split; [apply bytes_ok_zeros|rewrite val_zeros; apply Z.pow_pos_nonneg; lia].
+Qed.
+
+Lemma cex_absf n : absf (cex_bfs_n n) = [(mkfid P_CoAP 18, bits_of 8 1); (mkfid P_Other 0, repeat false (Z.to_nat (n * 8)))].
+Proof.
+  assert (E : abs (mkbuf (zeros n) (n * 8) LEFT 0) = repeat false (Z.to_nat (n * 8))).
+  { unfold abs, num. cbn [blen bside content]. rewrite val_zeros. apply bits_of_zero. }
+  unfold cex_bfs_n, absf. cbn [map fst snd]. rewrite E. generalize (repeat false (Z.to_nat (n * 8))). intros l. reflexivity.
+Qed.
+
+Example cex_bytes : bcoap_unparse cex_bfs = Exc OverflowError.
+Proof. vm_compute. reflexivity. Qed.
+
+Example cex_bits : coap_unparse (absf cex_bfs) = Exc OverflowError.
+Proof. unfold cex_bfs. rewrite cex_absf. vm_compute. reflexivity. Qed.
+
+Example cex_bytes_short : bcoap_unparse cex_bfs_short = Exc UnparserError.
+Proof. vm_compute. reflexivity. Qed.
+
+Example cex_bits_short : coap_unparse (absf cex_bfs_short) = Exc UnparserError.
+Proof. unfold cex_bfs_short. rewrite cex_absf. vm_compute. reflexivity. Qed.
+
+(* ---- the generated fields are left padded ------------------------------------------------------------ *)
+Definition leftf (bfs : list (fid * buf)) : Prop := Forall (fun p => bside (snd p) = LEFT) bfs.
+
+Lemma b_new_left_side c w r : b_new c w LEFT = Ok r -> bside r = LEFT.
+Proof.
+  unfold b_new. cbv zeta.
+  match goal with |- bind ?X _ = _ -> _ => destruct X as [c3| |] end; cbn [bind]; intros H; inversion H; reflexivity.
+Qed.
+
+Lemma buint_field_side k w n x : buint_field k w n = Ok x -> bside x = LEFT.
+Proof.
+  unfold buint_field. destruct (to_bytes k n) as [c| |]; cbn [bind]; try discriminate. apply b_new_left_side.
+Qed.
+
+Lemma bnibble_side x r :
+  (if x <? 13 then buint_field 1 4 x else if x <? 269 then buint_field 1 4 13 else buint_field 1 4 14) = Ok r ->
+  bside r = LEFT.
+Proof. destruct (x <? 13); [|destruct (x <? 269)]; apply buint_field_side. Qed.
+
+Lemma bextension_side i x l :
+  (if (12 <? x) && (x <? 269) then do e <- buint_field 1 8 (x - 13) ;; Ok [(i, e)]
+   else if 268 <? x then do e <- buint_field 2 16 (x - 269) ;; Ok [(i, e)] else Ok []) = Ok l -> leftf l.
+Proof.
+  destruct ((12 <? x) && (x <? 269)); [|destruct (268 <? x)].
+  - destruct (buint_field 1 8 (x - 13)) as [e| |] eqn:E; cbn [bind]; try discriminate.
+    intros [= <-]. constructor; [exact (buint_field_side _ _ _ _ E)|constructor].
+  - destruct (buint_field 2 16 (x - 269)) as [e| |] eqn:E; cbn [bind]; try discriminate.
+    intros [= <-]. constructor; [exact (buint_field_side _ _ _ _ E)|constructor].
+  - intros [= <-]. constructor.
+Qed.
+
+Ltac bind_case x E :=
+  match goal with |- bind ?X _ = _ -> _ => destruct X as [x| |] eqn:E; cbn [bind]; [|discriminate|discriminate] end.
+
+Lemma bunparse_option_left n p v o : bside v = LEFT -> bunparse_option n p v = Ok o -> leftf o.
+Proof.
+  intros Sv. unfold bunparse_option. cbv zeta.
+  bind_case dnib Edn. bind_case lnib Eln. bind_case dxt Ede. bind_case lxt Ele. intros [= <-].
+  apply bnibble_side in Edn, Eln. apply bextension_side in Ede, Ele. cbn [app].
+  constructor; [exact Edn|]. constructor; [exact Eln|]. apply Forall_app. split; [exact Ede|].
+  apply Forall_app. split; [exact Ele|]. destruct (0 <? _); [constructor; [exact Sv|constructor]|constructor].
+Qed.
+
+Lemma bcoap_unparse_loop_left bfs : forall prev seen r, leftf bfs -> bcoap_unparse_loop bfs prev seen = Ok r -> leftf r.
+Proof.
+  induction bfs as [|[f v] bfs IH]; intros prev seen r Hl; cbn [bcoap_unparse_loop]; [intros [= <-]; constructor|].
+  inversion Hl as [|? ? Sv Hl']; subst. cbn [snd] in Sv.
+  destruct (is_fixed_coap f).
+  { bind_case rest Er. intros [= <-]. constructor; [exact Sv|]. eapply IH; eassumption. }
+  destruct (number_of_fid f) as [n|].
+  - bind_case o Eo. bind_case rest Er. intros [= <-]. apply Forall_app. split.
+    + eapply bunparse_option_left; eassumption.
+    + eapply IH; eassumption.
+  - destruct seen; [|discriminate]. destruct (bunparse_option prev prev v); discriminate.
+Qed.
+
+(* canonical left-padded buffers are determined by their bits *)
+Lemma absf_inj a : forall b, canonf a -> canonf b -> leftf a -> leftf b -> absf a = absf b -> a = b.
+Proof.
+  induction a as [|[i x] a IH]; intros [|[j y] b] Ca Cb La Lb E; try discriminate E; [reflexivity|].
+  cbn [absf map fst snd] in E. injection E as Ei Ex Er.
+  apply canonf_cons in Ca, Cb. cbn [snd] in Ca, Cb. destruct Ca as [Cx Ca], Cb as [Cy Cb].
+  inversion La as [|? ? Sx La']; subst. inversion Lb as [|? ? Sy Lb']; subst. cbn [snd] in Sx, Sy.
+  f_equal.
+  - f_equal. apply abs_inj; [assumption|assumption|congruence|assumption].
+  - apply IH; assumption.
+Qed.
+
+(* ---- C19 at the byte level ----------------------------------------------------------------------------- *)
+(* (id, value) pairs of a byte-level field list: what the decompressor hands to unparse *)
+Definition bpairs (bfs : list bfield) : list (fid * buf) := map (fun f => (bf_id f, bf_val f)) bfs.
+
+Lemma absf_bpairs bfs : absf (bpairs bfs) = pairs (map (abs_field abs) bfs).
+Proof. unfold absf, bpairs, pairs. rewrite !map_map. reflexivity. Qed.
+Lemma canonf_bpairs bfs : Forall canon_bfield bfs -> canonf (bpairs bfs).
+Proof. intros H. unfold canonf, bpairs. apply Forall_map. eapply Forall_impl; [|exact H]. intros f [C _]. exact C. Qed.
+Lemma leftf_bpairs bfs : Forall canon_bfield bfs -> leftf (bpairs bfs).
+Proof. intros H. unfold leftf, bpairs. apply Forall_map. eapply Forall_impl; [|exact H]. intros f [_ S]. exact S. Qed.
+
+(* every bit string is the content of a canonical left-padded Buffer *)
+Lemma buf_of_bits (l : bits) : exists b, canon b /\ bside b = LEFT /\ abs b = l.
+Proof.
+  set (L := zlen l). pose proof (zlen_nonneg l) as HL. fold L in HL. set (k := Z.to_nat ((L + 7) / 8)).
+  destruct (new_left_bits (bytes_of k (Z_of_bits l)) L (bytes_ok_bytes_of _ _) HL) as (r & _ & C & S & _ & A).
+  exists r. split; [exact C|]. split; [exact S|]. rewrite A, val_bytes_of.
+  rewrite pow2_8 by lia. unfold L, zlen. rewrite Nat2Z.id. rewrite bits_of_mod_ge; [apply bits_of_Z_of_bits|].
+  fold (zlen l). fold L. unfold k. rewrite Z2Nat.id by (apply Z.div_pos; lia).
+  pose proof (Z.div_mod (L + 7) 8 ltac:(lia)). pose proof (Z.mod_pos_bound (L + 7) 8 ltac:(lia)). lia.
+Qed.
+
+(* 1. byte-level semantic parsing of the bytes of a well-formed message: one field per option, named after
+      its number, carrying its value *)
+Theorem bc19_semantic_parse m b : coap_wf m -> canon b -> bside b = LEFT -> abs b = coap_encode m ->
+  exists bsem, bparse_coap_semantic b = Ok (bsem, coap_header_len m) /\
+               map (abs_field abs) bsem = coap_semantic_fields m /\ Forall canon_bfield bsem.
+Proof.
+  intros Hm Hb Hs E. pose proof (bparse_coap_semantic_refines b Hb Hs) as H.
+  rewrite E, (c19_semantic_parse m Hm) in H.
+  destruct (bparse_coap_semantic b) as [[bsem n]| |]; cbn [same_outcome] in H; try contradiction.
+  destruct H as (Hf & Hn & Hc). cbn [fst snd] in *. subst n. exists bsem. auto.
+Qed.
+
+(* 2. byte-level un-parsing of byte-level semantic fields denoting those of a well-formed message gives
+      canonical buffers denoting the syntactic field sequence *)
+Theorem bc19_unparse m bsem : coap_wf m -> Forall canon_bfield bsem ->
+  map (abs_field abs) bsem = coap_semantic_fields m ->
+  exists r, bcoap_unparse (bpairs bsem) = Ok r /\ canonf r /\ leftf r /\ absf r = pairs (coap_fields m).
+Proof.
+  intros Hm Hc E.
+  destruct (bcoap_unparse_ok (bpairs bsem) (pairs (coap_fields m)) (canonf_bpairs _ Hc)) as (r & Er & Cr & Ar).
+  { rewrite absf_bpairs, E. apply c19_unparse. exact Hm. }
+  exists r. split; [exact Er|]. split; [exact Cr|]. split; [|exact Ar].
+  eapply bcoap_unparse_loop_left; [apply leftf_bpairs; exact Hc|exact Er].
+Qed.
+
+(* 3. the property at the byte level, no abstraction left in the conclusion: on the bytes of a well-formed
+      message, semantic parse then unparse returns exactly the (id, value) pairs of the syntactic parse *)
+Theorem bc19_lossless m b : coap_wf m -> canon b -> bside b = LEFT -> abs b = coap_encode m ->
+  exists bsem bsyn n, bparse_coap_semantic b = Ok (bsem, n) /\ bparse_coap b = Ok (bsyn, n) /\
+                      bcoap_unparse (bpairs bsem) = Ok (bpairs bsyn) /\
+                      absf (bpairs bsyn) = pairs (coap_fields m) /\ n = coap_header_len m.
+Proof.
+  intros Hm Hb Hs E.
+  destruct (bc19_semantic_parse m b Hm Hb Hs E) as (bsem & Esem & Asem & Csem).
+  destruct (bc19_unparse m bsem Hm Csem Asem) as (r & Er & Cr & Lr & Ar).
+  pose proof (bparse_coap_refines b Hb Hs) as H. rewrite E, (c08_coap m Hm) in H.
+  destruct (bparse_coap b) as [[bsyn n]| |]; cbn [same_outcome] in H; try contradiction.
+  destruct H as (Hf & Hn & Hc). cbn [fst snd] in *. subst n.
+  exists bsem, bsyn, (coap_header_len m). split; [exact Esem|]. split; [reflexivity|].
+  assert (absf (bpairs bsyn) = pairs (coap_fields m)) as Asyn by (rewrite absf_bpairs, Hf; reflexivity).
+  split; [|split; [exact Asyn|reflexivity]].
+  rewrite Er. f_equal. apply absf_inj; try assumption.
+  - apply canonf_bpairs; exact Hc.
+  - apply leftf_bpairs; exact Hc.
+  - congruence.
+Qed.
+
+(* the hypotheses are satisfiable for every well-formed message *)
+Corollary bc19_lossless_exists m : coap_wf m ->
+  exists b bsem bsyn n, canon b /\ bside b = LEFT /\ abs b = coap_encode m /\
+    bparse_coap_semantic b = Ok (bsem, n) /\ bparse_coap b = Ok (bsyn, n) /\
+    bcoap_unparse (bpairs bsem) = Ok (bpairs bsyn).
+Proof.
+  intros Hm. destruct (buf_of_bits (coap_encode m)) as (b & Hb & Hs & E).
+  destruct (bc19_lossless m b Hm Hb Hs E) as (bsem & bsyn & n & H1 & H2 & H3 & _).
+  exists b, bsem, bsyn, n. auto 7.
+Qed.
+
+(* non-vacuity on concrete bytes (the message of props/C19.c19_ex: delta 13 with an empty value, then the
+   unknown option number 23, then a 12-byte value at delta 269) *)
+Example bc19_ex :
+  let b := mkbuf [64; 1; 0; 7; 208; 0; 161; 1; 236; 0; 0; 0; 0; 0; 0; 0; 0; 0; 0; 0; 0; 0; 3] 184 LEFT 0 in
+  exists bsem bsyn n, bparse_coap_semantic b = Ok (bsem, n) /\ bparse_coap b = Ok (bsyn, n) /\
+                      length bsem = 8%nat /\ length bsyn = 15%nat /\
+                      bcoap_unparse (bpairs bsem) = Ok (bpairs bsyn).
+Proof.
+  cbv zeta. eexists. eexists. eexists.
+  split; [vm_compute; reflexivity|]. split; [vm_compute; reflexivity|].
+  split; [reflexivity|]. split; [reflexivity|]. vm_compute. reflexivity.
+Qed.
